@@ -32,6 +32,15 @@
        uncompleted task that has STARTED, is off the stack, and is blocked or depends on an already computed
        batch item: no reachable task is unstarted;
      C04_reachable_is_computed_or_stuck_stree_if_no_stale_item: the tree conclusion under the state hypothesis.
+   WITHOUT THE HYPOTHESIS no_unwind (end of the file; proofs/MachineNoUnwind.v, MachineGuardForms.v): the tree-
+   program theorems are stated again as C04_flush_only_when_stuck_tree_guard,
+   C04_reachable_is_computed_or_stuck_tree_guard, C04_stuck_items_are_in_pending_scheduled_batches_tree_guard, and
+   in the disjunctive reading ("..., or the guard fired at an earlier step")
+   C04_flush_only_when_stuck_tree_unless_guard. These forms need no assumption about exceptions unwinding:
+   FutureIsAlreadyComputed is proved unreachable for tree programs, so only the runaway guard's RuntimeError can
+   unwind through asynq's frames, and the hypothesis "the guard has not fired before step n" (forall k < n,
+   guard_fires P (run P k c0) = false; guard_fires is the boolean test at the head of the _execute loop) is a
+   decidable condition on the run.
    NOT proved: for stree programs, that the pending items of S are in scheduled unflushed batches (MachineC04B is
    for tree programs only); anything for programs with shared futures (DAGs), .value() on futures that are not
    fresh tasks, and the MAX_TASK_STACK_SIZE reset (correspondence + monitors in harness/props/c04.py). *)
@@ -173,3 +182,70 @@ Theorem C04_flush_only_when_stuck_stree_is_false :
        exists S : fid -> Prop, S r /\ forall d, S d -> S_ok S (c_st (run P n (start h s1))) d).
 Proof. exact flush_only_when_stuck_stree_is_false. Qed.
 Print Assumptions C04_flush_only_when_stuck_stree_is_false.
+
+(* ==== the same WITHOUT an assumption about exceptions unwinding (proofs/MachineNoUnwind.v, MachineGuardForms.v) ====
+   [no_unwind] is replaced by "the MAX_TASK_STACK_SIZE guard has not fired before step n":
+   forall k < n, guard_fires P (run P k c0) = false, where guard_fires is the boolean test at the head of the
+   _execute loop in Machine.step.  For tree programs under a pointwise service the two say the same:
+   FutureIsAlreadyComputed is proved unreachable, so the guard's RuntimeError is the only exception that can
+   unwind through asynq's frames. *)
+From Asynq Require Import proofs.MachineNoUnwind proofs.MachineGuardForms.
+Theorem C04_flush_only_when_stuck_tree_guard : forall P, pointwise P -> forall p, tree p -> forall n,
+  let h := fst (create [] (FTask p) (st0 P)) in
+  let s1 := snd (create [] (FTask p) (st0 P)) in
+  (forall k, (k < n)%nat -> guard_fires P (run P k (start h s1)) = false) ->
+  c_mode (run P n (start h s1)) = MAfterExec ->
+  computed h (c_st (run P n (start h s1))) = false ->
+  exists S : fid -> Prop, S h /\ forall d, S d ->
+    let s := c_st (run P n (start h s1)) in
+    (exists tk, get d s = Some (mkFut None (KTask tk)) /\ (1 <= tk_iter tk)%Z /\
+                (exists e, In e (tk_deps tk) /\ S e) /\
+                (forall e, In e (tk_deps tk) -> computed e s = true \/ S e)) \/
+    (exists kind idx key a, get d s = Some (mkFut None (KItem kind idx key a))).
+Proof. exact flush_only_when_stuck_tree_guard. Qed.
+Print Assumptions C04_flush_only_when_stuck_tree_guard.
+
+(* the disjunctive reading: a flush point with the awaited task uncomputed is a stuck point, or the guard fired
+   at an earlier step *)
+Theorem C04_flush_only_when_stuck_tree_unless_guard : forall P, pointwise P -> forall p, tree p -> forall n,
+  let h := fst (create [] (FTask p) (st0 P)) in
+  let s1 := snd (create [] (FTask p) (st0 P)) in
+  c_mode (run P n (start h s1)) = MAfterExec ->
+  computed h (c_st (run P n (start h s1))) = false ->
+  (exists S : fid -> Prop, S h /\ forall d, S d ->
+    let s := c_st (run P n (start h s1)) in
+    (exists tk, get d s = Some (mkFut None (KTask tk)) /\ (1 <= tk_iter tk)%Z /\
+                (exists e, In e (tk_deps tk) /\ S e) /\
+                (forall e, In e (tk_deps tk) -> computed e s = true \/ S e)) \/
+    (exists kind idx key a, get d s = Some (mkFut None (KItem kind idx key a)))) \/
+  (exists k, (k < n)%nat /\ guard_fires P (run P k (start h s1)) = true).
+Proof. exact flush_only_when_stuck_tree_unless_guard. Qed.
+Print Assumptions C04_flush_only_when_stuck_tree_unless_guard.
+
+Theorem C04_reachable_is_computed_or_stuck_tree_guard : forall P, pointwise P -> forall p, tree p -> forall n,
+  let h := fst (create [] (FTask p) (st0 P)) in
+  let s1 := snd (create [] (FTask p) (st0 P)) in
+  (forall k, (k < n)%nat -> guard_fires P (run P k (start h s1)) = false) ->
+  c_mode (run P n (start h s1)) = MAfterExec ->
+  computed h (c_st (run P n (start h s1))) = false ->
+  forall d, reach (c_st (run P n (start h s1))) h d ->
+    computed d (c_st (run P n (start h s1))) = true \/
+    (exists kind idx key a, get d (c_st (run P n (start h s1))) = Some (mkFut None (KItem kind idx key a))) \/
+    (exists tk, get d (c_st (run P n (start h s1))) = Some (mkFut None (KTask tk)) /\ (1 <= tk_iter tk)%Z /\
+                is_blocked tk (c_st (run P n (start h s1))) = true).
+Proof. exact reachable_is_computed_or_stuck_tree_guard. Qed.
+Print Assumptions C04_reachable_is_computed_or_stuck_tree_guard.
+
+Theorem C04_stuck_items_are_in_pending_scheduled_batches_tree_guard : forall P, pointwise P -> forall p, tree p -> forall n,
+  let h := fst (create [] (FTask p) (st0 P)) in
+  let s1 := snd (create [] (FTask p) (st0 P)) in
+  (forall k, (k < n)%nat -> guard_fires P (run P k (start h s1)) = false) ->
+  c_mode (run P n (start h s1)) = MAfterExec ->
+  computed h (c_st (run P n (start h s1))) = false ->
+  exists S : fid -> Prop, S h /\ (forall d, S d -> S_ok S (c_st (run P n (start h s1))) d) /\
+    forall d kind idx key a, S d -> get d (c_st (run P n (start h s1))) = Some (mkFut None (KItem kind idx key a)) ->
+      In (kind, idx) (sb (c_st (run P n (start h s1)))) /\
+      In d (b_items (get_batch (kind, idx) (c_st (run P n (start h s1))))) /\
+      b_done (get_batch (kind, idx) (c_st (run P n (start h s1)))) = false.
+Proof. exact flush_only_when_stuck_pending_tree_guard. Qed.
+Print Assumptions C04_stuck_items_are_in_pending_scheduled_batches_tree_guard.
